@@ -373,6 +373,15 @@ def catalogue_grids(excl=frozenset()):
                     if v[0] != 'null':
                         out.append(['grid', ver, [], [['a', []]],
                                     [[['a', ['grid', '3.0', [['gm', v]], [['x', [['cm', v]]]], [[['x', v]]]]]]]])
+        # one wide and long grid per version: 14 columns x 40 rows cycling through every scalar sample,
+        # with sparse rows, 12 grid-metadata tags and metadata on every column
+        pool = [v for vals in sorted(samples.items()) for v in vals[1] if v[0] not in ('null', 'grid')]
+        cols = [['c%d' % j, [['dis', ['str', 'Column %d' % j]], ['k%d' % j, pool[(j * 7) % len(pool)]]]] for j in range(14)]
+        rows = []
+        for i in range(40):
+            rows.append([['c%d' % j, pool[(i * 14 + j) % len(pool)]] for j in range(14) if (i + j) % 5])
+        meta = [['m%d' % j, pool[(j * 3 + 1) % len(pool)]] for j in range(12)]
+        out.append(['grid', ver, meta, cols, rows])
     return out
 
 
